@@ -30,14 +30,18 @@ func rulesC03Iter(c *Ctx) {
 	for _, b := range fn.Blocks {
 		for _, in := range b.Instrs {
 			bo, ok := in.(*ssa.BinOp)
-			if !ok || bo.Op != token.LSS {
+			if !ok {
 				continue
 			}
-			call, ok := bo.X.(*ssa.Call)
+			bx, bop, by := cmpConstRight(bo)
+			if bop != token.LSS {
+				continue
+			}
+			call, ok := bx.(*ssa.Call)
 			if !ok || calleeName(call) != "storage/mkvs/node.(Key).Compare" {
 				continue
 			}
-			if k, ok := constInt(bo.Y); !ok || k != 0 {
+			if k, ok := constInt(by); !ok || k != 0 {
 				continue
 			}
 			flag = bo
